@@ -39,6 +39,8 @@ type Router struct {
 	statePath   string
 	services    *ServiceMap
 	serviceLock sync.RWMutex
+
+	snapshotLock sync.Mutex
 }
 
 type ServiceDescription struct {
@@ -330,6 +332,13 @@ func (r *Router) findOrCreateService(name string, options ServiceOptions, target
 }
 
 func (r *Router) saveStateSnapshot() error {
+	// Snapshots are serialised from collecting the services to renaming the
+	// new file into place, so the snapshot written last is also the one
+	// collected last. The state file is only ever replaced atomically: a
+	// process killed at any point leaves the previous or the new snapshot.
+	r.snapshotLock.Lock()
+	defer r.snapshotLock.Unlock()
+
 	services := []*Service{}
 	r.withReadLock(func() error {
 		for _, service := range r.services.All() {
@@ -340,7 +349,8 @@ func (r *Router) saveStateSnapshot() error {
 	verifEvent("snap-collect", r, services)
 	verifYield("snapshot:collected", r)
 
-	f, err := os.Create(r.statePath)
+	tmpPath := r.statePath + ".tmp"
+	f, err := os.Create(tmpPath)
 	if err != nil {
 		return err
 	}
@@ -348,14 +358,21 @@ func (r *Router) saveStateSnapshot() error {
 	verifYield("snapshot:created", r)
 
 	err = json.NewEncoder(f).Encode(services)
+	if closeErr := f.Close(); err == nil {
+		err = closeErr
+	}
+	if err == nil {
+		verifEvent("snap-write", r)
+		verifYield("snapshot:written", r)
+		err = os.Rename(tmpPath, r.statePath)
+	}
 	if err != nil {
+		os.Remove(tmpPath)
 		slog.Error("Unable to save state", "error", err, "path", r.statePath)
 		return err
 	}
 
 	slog.Debug("Saved state", "path", r.statePath)
-	verifEvent("snap-write", r)
-	verifYield("snapshot:written", r)
 	return nil
 }
 
